@@ -133,6 +133,18 @@ def decide(R, words, budget_ms):
     return rex.solve_in(z3.Intersect(rex.search_lang(R), z3.Complement(has)), timeout_ms=budget_ms, seed=common.seed())
 
 
+BUDGET = 1  # multiplier of the per-query time limits (raised for the retry pass)
+
+
+def job_retry(i):
+    global BUDGET
+    BUDGET = 8
+    try:
+        return job(i)
+    finally:
+        BUDGET = 1
+
+
 def job(i):
     st = setup()
     e = st["exts"][i]
@@ -148,7 +160,7 @@ def job(i):
             return out
         words = all_words(i)
         out["nwords"] = len(words)
-        v, w = decide(rex.tr(p, e.flags), words, 20000)
+        v, w = decide(rex.tr(p, e.flags), words, 20000 * BUDGET)
         out["queries"] += 1
         if v == "unknown" and len(words) > 1:
             # guided decomposition: L = union of branch variants; for each variant take a member,
@@ -159,7 +171,7 @@ def job(i):
             v = "unsat"
             for var in variants:
                 Rv = rex.tr(var, e.flags)
-                mv, mw = rex.solve_in(rex.search_lang(Rv), timeout_ms=20000, seed=common.seed())
+                mv, mw = rex.solve_in(rex.search_lang(Rv), timeout_ms=20000 * BUDGET, seed=common.seed())
                 out["queries"] += 1
                 if mv == "unsat":
                     continue
@@ -168,10 +180,10 @@ def job(i):
                     member = rex.strip_sentinels(mw)
                     cand = [(n, x) for n, x in words if x in transform(n, member)]
                     if cand:
-                        vv, ww = decide(Rv, cand, 30000)
+                        vv, ww = decide(Rv, cand, 30000 * BUDGET)
                         out["queries"] += 1
                 if vv != "unsat":
-                    vv, ww = decide(Rv, words, 60000)
+                    vv, ww = decide(Rv, words, 60000 * BUDGET)
                     out["queries"] += 1
                 if vv == "sat":
                     v, w = "sat", ww
@@ -364,30 +376,28 @@ def check(rep):
         rep.inconc(f"automata reference extractors that are not in tokenizer.extractors: {st['foreign'][:3]}")
     idx = list(range(n))
     t0 = time.time()
-    ctx = mp.get_context("fork")
-    with ctx.Pool(min(16, os.cpu_count() or 4)) as pool:
-        ar = pool.map_async(job, idx, chunksize=8)
-        try:
-            res = ar.get(timeout=3000)
-        except mp.TimeoutError:
-            pool.terminate()
-            rep.inconc("regex inclusion queries exceeded 3000 s")
-            res = []
-        # translator validation on concrete texts (seeded sample in quick, all in thorough)
-        rnd = random.Random(common.seed())
-        sample = idx if rep.tier == "thorough" else rnd.sample(idx, min(400, n))
-        margs = []
-        for i in sample:
-            for tx in example_texts(exts[i])[:2]:
-                margs.append((i, tx))
-            margs.append((i, "zzz 1 qq 2"))
-        mres = pool.map_async(member_job, margs, chunksize=16)
-        try:
-            mres = mres.get(timeout=3000)
-        except mp.TimeoutError:
-            pool.terminate()
-            rep.inconc("translator validation exceeded 3000 s")
-            mres = []
+    res, err = common.pmap(job, idx, timeout=3000, chunk=8)
+    if err:
+        rep.inconc("regex inclusion queries: " + err)
+    # a loaded machine must not turn into 'unknown': second pass for those, fewer processes, 8x the time limits
+    again = [r["i"] for r in res if r["verdict"] == "unknown"]
+    if again:
+        res2, err2 = common.pmap(job_retry, again, procs=6, timeout=3000, chunk=1)
+        if not err2:
+            by = {r["i"]: r for r in res2}
+            res = [by.get(r["i"], r) for r in res]
+        rep.sections["retry_pass"] = {"retried": len(again), "still_unknown": sum(1 for r in res if r["verdict"] == "unknown")}
+    # translator validation on concrete texts (seeded sample in quick, all in thorough)
+    rnd = random.Random(common.seed())
+    sample = idx if rep.tier == "thorough" else rnd.sample(idx, min(400, n))
+    margs = []
+    for i in sample:
+        for tx in example_texts(exts[i])[:2]:
+            margs.append((i, tx))
+        margs.append((i, "zzz 1 qq 2"))
+    mres, err = common.pmap(member_job, margs, timeout=3000, chunk=16)
+    if err:
+        rep.inconc("translator validation: " + err)
     counts = {}
     solver_s = 0.0
     for r in res:
